@@ -2,7 +2,10 @@
 package c08
 
 import (
+	"strings"
+
 	"github.com/hashicorp/hcl/v2"
+	"github.com/hashicorp/hcl/v2/ext/dynblock"
 	"github.com/hashicorp/hcl/v2/hcldec"
 	"github.com/hashicorp/hcl/v2/hclsyntax"
 	"github.com/zclconf/go-cty/cty"
@@ -44,6 +47,9 @@ func attrSpec(name string) hcldec.Spec {
 
 // nested is the spec applied inside blocks.
 func nested() hcldec.Spec {
+	if lean() {
+		return []hcldec.Spec{hcldec.ObjectSpec{"x": &hcldec.AttrSpec{Name: "x", Type: cty.String}}, &hcldec.AttrSpec{Name: "x", Type: cty.DynamicPseudoType}}[pick(2)]
+	}
 	switch pick(4) {
 	case 0:
 		return hcldec.ObjectSpec{"x": &hcldec.AttrSpec{Name: "x", Type: cty.String}}
@@ -67,9 +73,14 @@ func labelsFor(n hcldec.Spec) int {
 // topSpec builds one spec of every kind by symbolic choice. needLabels is the
 // number of labels the block type "blk" must carry according to the spec.
 func topSpec() (s hcldec.Spec, needLabels int) {
-	kindSel = pick(14)
-	if symKinds {
+	switch {
+	case lean():
+		// the labelled block collections and the single block only
+		kindSel = []int{1, 2, 3, 5, 6}[pick(5)]
+	case symKinds:
 		kindSel = []int{0, 2, 4, 5, 6, 7, 8}[pick(7)]
+	default:
+		kindSel = pick(14)
 	}
 	switch kindSel {
 	case 0:
@@ -79,16 +90,16 @@ func topSpec() (s hcldec.Spec, needLabels int) {
 		return &hcldec.BlockSpec{TypeName: "blk", Nested: n, Required: pick(2) == 1}, labelsFor(n)
 	case 2:
 		n := nested()
-		return &hcldec.BlockListSpec{TypeName: "blk", Nested: n, MinItems: vf.Int(0, 2), MaxItems: vf.Int(0, 3)}, labelsFor(n)
+		return &hcldec.BlockListSpec{TypeName: "blk", Nested: n, MinItems: minmax(2), MaxItems: minmax(3)}, labelsFor(n)
 	case 3:
 		n := nested()
-		return &hcldec.BlockTupleSpec{TypeName: "blk", Nested: n, MinItems: vf.Int(0, 2), MaxItems: vf.Int(0, 3)}, labelsFor(n)
+		return &hcldec.BlockTupleSpec{TypeName: "blk", Nested: n, MinItems: minmax(2), MaxItems: minmax(3)}, labelsFor(n)
 	case 4:
 		n := nested()
-		return &hcldec.BlockSetSpec{TypeName: "blk", Nested: n, MinItems: vf.Int(0, 2), MaxItems: vf.Int(0, 3)}, labelsFor(n)
+		return &hcldec.BlockSetSpec{TypeName: "blk", Nested: n, MinItems: minmax(2), MaxItems: minmax(3)}, labelsFor(n)
 	case 5:
-		nl := 1 + pick(2)
-		names := []string{"k", "k2"}[:nl]
+		nl := 1 + pick(maxLabels())
+		names := []string{"k", "k2", "k3"}[:nl]
 		var n hcldec.Spec = hcldec.ObjectSpec{"x": &hcldec.AttrSpec{Name: "x", Type: cty.String}}
 		if pick(2) == 1 {
 			// (a dynamically-typed nested spec is a documented precondition violation for BlockMapSpec)
@@ -96,8 +107,8 @@ func topSpec() (s hcldec.Spec, needLabels int) {
 		}
 		return &hcldec.BlockMapSpec{TypeName: "blk", LabelNames: names, Nested: n}, nl
 	case 6:
-		nl := 1 + pick(2)
-		names := []string{"k", "k2"}[:nl]
+		nl := 1 + pick(maxLabels())
+		names := []string{"k", "k2", "k3"}[:nl]
 		return &hcldec.BlockObjectSpec{TypeName: "blk", LabelNames: names, Nested: nested0()}, nl
 	case 7:
 		return &hcldec.BlockAttrsSpec{TypeName: "blk", ElementType: []cty.Type{cty.String, cty.Number}[pick(2)], Required: pick(2) == 1}, 0
@@ -126,6 +137,18 @@ func topSpec() (s hcldec.Spec, needLabels int) {
 	return hcldec.TupleSpec{attrSpec("a"), &hcldec.BlockSpec{TypeName: "blk", Nested: nested0()}}, 0
 }
 
+func lean() bool { return vf.Param("lean", 0) == 1 }
+
+// minmax: symbolic item bounds, or none in the lean configuration
+func minmax(hi int) int {
+	if lean() {
+		return 0
+	}
+	return vf.Int(0, hi)
+}
+
+func maxLabels() int { return vf.Param("maxlabels", 2) }
+
 func nested0() hcldec.Spec {
 	if pick(2) == 0 {
 		return hcldec.ObjectSpec{"x": &hcldec.AttrSpec{Name: "x", Type: cty.String}}
@@ -139,7 +162,10 @@ var xTexts = []string{"", "x = \"s\"", "x = 1", "x = unk", "x = [1]", "zz = 1"}
 // body renders a native body from symbolic choices: attribute a in one of 8 forms,
 // 0..2 blocks "blk" with a symbolic number of labels and nested attribute forms.
 func body(needLabels int) string {
-	src := attrTexts[pickN(len(attrTexts), 2)]
+	src := ""
+	if !lean() {
+		src = attrTexts[pickN(len(attrTexts), 2)]
+	}
 	if symbolicLabels && src == attrTexts[1] {
 		// string content: one symbolic printable byte
 		c := vf.Str(1)
@@ -161,10 +187,13 @@ func body(needLabels int) string {
 				nl = pick(3)
 			}
 			xi = pickN(len(xTexts), 3)
+			if lean() {
+				xi = 1
+			}
 			first = xi
 		} else {
 			// the second block differs from the first one in the type of x
-			xi = (first + 1) % 3 + 1
+			xi = (first+1)%3 + 1
 		}
 		src += "blk"
 		for j := 0; j < nl; j++ {
@@ -172,14 +201,44 @@ func body(needLabels int) string {
 				if symbolicLabels {
 					// label: one symbolic letter (distinct blocks may or may not collide)
 					c := vf.Byte()
-					vf.Assume(c >= 'a' && c <= 'c')
+					hi := byte('c')
+					if lean() {
+						hi = 'b'
+					}
+					vf.Assume(c >= 'a')
+					vf.Assume(c <= hi)
 					src += ` "` + string([]byte{c}) + `"`
 				} else {
 					src += []string{` "l1"`, ` "l2"`}[i%2]
 				}
+			} else if symbolicLabels && vf.Param("symall", 0) == 1 {
+				c := vf.Byte()
+				vf.Assume(c >= 'a')
+				vf.Assume(c <= 'b')
+				src += ` "` + string([]byte{c}) + `"`
 			} else {
 				src += ` "m"`
 			}
+		}
+		if dynBlocks && pick(3) == 0 {
+			// the same block generated by a dynamic block whose for_each is unknown
+			// (dynKind 0), or known with one element (dynKind 1)
+			hdr := src[strings.LastIndex(src, "blk"):]
+			src = src[:len(src)-len(hdr)]
+			labels := ""
+			for _, l := range strings.Fields(hdr[3:]) {
+				if labels != "" {
+					labels += ", "
+				}
+				labels += l
+			}
+			fe := []string{"ul", "[1]"}[pick(2)]
+			src += "dynamic \"blk\" {\n  for_each = " + fe + "\n"
+			if labels != "" {
+				src += "  labels = [" + labels + "]\n"
+			}
+			src += "  content {\n    " + xTexts[xi] + "\n  }\n}\n"
+			continue
 		}
 		src += " {\n  " + xTexts[xi] + "\n}\n"
 	}
@@ -205,9 +264,10 @@ func H_DecodeSym() {
 	decodeOne()
 }
 
-var symKinds bool
+var symKinds, dynBlocks bool
 
 func decodeOne() {
+	dynBlocks = vf.Param("dyn", 0) == 1
 	spec, needLabels := topSpec()
 	src := body(needLabels)
 	vf.Observe("src", src)
@@ -216,17 +276,21 @@ func decodeOne() {
 	if diags.HasErrors() {
 		return
 	}
-	ctx := &hcl.EvalContext{Variables: map[string]cty.Value{"unk": cty.UnknownVal(cty.String)}}
+	ctx := &hcl.EvalContext{Variables: map[string]cty.Value{"unk": cty.UnknownVal(cty.String), "ul": cty.UnknownVal(cty.List(cty.String))}}
 	implied := hcldec.ImpliedType(spec)
+	var theBody hcl.Body = f.Body
+	if dynBlocks {
+		theBody = dynblock.Expand(f.Body, ctx)
+	}
 	for pass := 0; pass < 2; pass++ {
 		var v cty.Value
 		var ddiags hcl.Diagnostics
 		what := kindNames[kindSel] + ":Decode"
 		if pass == 0 {
-			v, ddiags = hcldec.Decode(f.Body, spec, ctx)
+			v, ddiags = hcldec.Decode(theBody, spec, ctx)
 		} else {
 			what = kindNames[kindSel] + ":PartialDecode"
-			v, _, ddiags = hcldec.PartialDecode(f.Body, spec, ctx)
+			v, _, ddiags = hcldec.PartialDecode(theBody, spec, ctx)
 		}
 		vf.Assert(v != cty.NilVal, what+":non-nil-value")
 		if v == cty.NilVal {
@@ -235,7 +299,8 @@ func decodeOne() {
 		errs := v.Type().TestConformance(implied)
 		emptyMap2, dynElems := classify(spec)
 		known := "C08-empty-multilabel-map-type"
-		sig := emptyMap2
+		// the finding: no block of the type contributed, the result is a known empty map
+		sig := emptyMap2 && v.IsKnown() && !v.IsNull() && v.Type().IsMapType() && v.LengthInt() == 0
 		if !emptyMap2 && dynElems {
 			known, sig = "C08-dynamic-collection-collapses", true
 		}
